@@ -20,7 +20,7 @@ Not decided: SHA-256, staleness after a *_mut() accessor is used post precompute
 import re
 
 from fvlib.core import (CFG, CallGraph, agg_blocks, arm_regions, assignments, call_blocks, calls, callee_matches, callee_name,
-                        describe, enum_switches, short)
+                        closure_env, describe, enum_switches, short, subst_env)
 from fvlib.effects import direct_field_writes, _exact_field
 from fvlib.summ import ok_sites
 
@@ -114,9 +114,26 @@ def run(F, rep, tier, allfacts):
         cfg = CFG(f)
         body = call_blocks(f, r"PrepareSign::prepare_sign$")
         fe = [(i, [describe(f, a, depth=10) for a in args]) for i, c, args, *_ in calls(f) if callee_matches(c, r"Iterator::for_each$|IterMut.*::for_each$")]
-        ok = len(body) == 1 and len(fe) == 2 and any("inputs_mut(" in a[0] and a[1].endswith("Input::prepare_sign") for _, a in fe) and any("outputs_mut(" in a[0] and a[1].endswith("Output::prepare_sign") for _, a in fe)
         rets = cfg.exits("ret")
-        ok = ok and all(cfg.must_pass([b], 0, rets) for b in body + [x[0] for x in fe])
+
+        def visits(kind, ty):
+            """block that makes every element of self.<kind>_mut() go through <ty>::prepare_sign: a for_each over the
+            iterator, or a `for` loop (the call sits on a cycle headed by next() of that iterator)"""
+            for i_, a in fe:
+                if (kind + "_mut(") in a[0] and a[1].endswith(ty + "::prepare_sign"):
+                    return i_
+            dom_ = cfg.dominators()
+            for i_, c_, args_, *_r in calls(f):
+                if callee_name(c_).endswith("::" + ty + "::prepare_sign") or callee_name(c_).endswith(ty + "::prepare_sign"):
+                    if i_ in cfg.reachable_from(i_):
+                        heads = [h for h in dom_.get(i_, ()) if f["bbs"][h]["t"][0] == "call" and callee_matches(f["bbs"][h]["t"][1], r"Iterator>?::next$")
+                                 and (kind + "_mut(") in describe(f, f["bbs"][h]["t"][2][0], depth=14)]
+                        if heads:
+                            return heads[0]
+            return None
+        vi, vo = visits("inputs", "Input"), visits("outputs", "Output")
+        body = [b for b in body if "ChargeableBody" in callee_name(f["bbs"][b]["t"][1]) or "body" in describe(f, f["bbs"][b]["t"][2][0], depth=8)] or body
+        ok = len(body) >= 1 and vi is not None and vo is not None and all(cfg.must_pass([b], 0, rets) for b in body[:1] + [vi, vo])
         rep.check(ok, "TAB-malleable", "tx:body+all-inputs+all-outputs", "%s:%s" % (f["file"], f["line"]), "transaction prepare_sign must visit the body, every input and every output; found body=%d for_each=%s" % (len(body), fe))
 
     # ---------------- id pipeline
@@ -158,6 +175,11 @@ def run(F, rep, tier, allfacts):
         cfg = CFG(f)
         ps = [(callee_name(c), describe(f, args[0], depth=4, through=NOCLONE)) for i, c, args, *_ in calls(f) if callee_name(c).endswith("::prepare_sign")]
         cti = [[describe(f, a, depth=4, through=NOCLONE) for a in args] for i, c, args, *_ in calls(f) if callee_matches(c, r"compute_transaction_id$")]
+        # the uncached computation may sit in the closure of `cached_id().unwrap_or_else(|| ..)`: read it in the parent's vocabulary
+        for cn_, cf_ in F.find("^" + re.escape(mn) + r"::\{closure#\d+\}$", ["fuel_tx"], required=False):
+            env_ = closure_env(f, cn_, through=NOCLONE)
+            ps += [(callee_name(c), subst_env(describe(cf_, args[0], depth=20, through=NOCLONE), env_)) for i, c, args, *_ in calls(cf_) if callee_name(c).endswith("::prepare_sign")]
+            cti += [[subst_env(describe(cf_, a, depth=20, through=NOCLONE), env_) for a in args] for i, c, args, *_ in calls(cf_) if callee_matches(c, r"compute_transaction_id$")]
         ok = sorted(p[1] for p in ps) == [CL + ".input_contract", CL + ".output_contract"] and cti == [["arg:chain_id", CL]]
         rep.check(ok, "DOM-id", "Mint::id", "%s:%s" % (f["file"], f["line"]), "Mint::id must zero the clone's contract input and output and hash the clone; found %s / %s" % (ps, cti))
 
